@@ -4,6 +4,9 @@ from lib import tables as T
 from rules import duke_common as D
 
 
+# rules of sibling properties that decide code on this property's own call path: the tree builder (anchor of C01) must store each delivered group where the replay and the writer expect it
+PREMISES = [("C17", ["R17.4"]), ("C02", ["R02.1:attr-source"])]
+
 def run(F, R, tier):
     S = D.spec()
     duke = F.crate("duke")
